@@ -569,7 +569,7 @@ class ProbeEngine(object):
                 # reports every one of its 1024 entries as free
                 ch.rtr_entry0_reserved = False
                 w.probe("router_all_1024_free")
-            ch.diag = [t.draw(1 << 32) for _ in range(16)]
+            ch.diag = [t.edge(1 << 32) for _ in range(16)]
             if xy != m.root:
                 k = t.draw(20 if n_chips < 30 else 40)
                 if k == 0:
